@@ -12,9 +12,16 @@ readiness and call argument is a free input owned by the cycle driver.
          | {"t": "switch", "sel": s, "cases": [{"p": [pattern...] | None (= Default), "body": [...]}]}
          | {"t": "trans", "i": i, "calls": [j, ...], "body": [...]}          (top level of a module only)
          | {"t": "meth", "j": j, "body": [...]}                              (top level of a module only)
+         | {"t": "avif", "c": [cond index, negated], "body": [...]}          (m.AvoidedIf of TModule)
+         | {"t": "fsm", "f": f, "init": state index | None, "states": [{"body": [...], "go": [[c | None, target], ...]}]}
+           (m.FSM / m.State("S<i>"); after the state's body `m.next = "S<target>"` statements in the given order,
+            each unconditional (c = None) or under m.If(cond); only generated with gen_prog(..., ext=True))
 
 `eval_sites` is the oracle's reading of the same data: a site's context is active iff the body it
-sits in runs (observed `run` signal) and every enclosing branch is the one Amaranth selects.
+sits in runs (observed `run` signal) and every enclosing branch is the one Amaranth selects.  Programs
+with FSMs need the state registers: `CtxEval(prog).step(stim, obs)` is eval_sites plus a model of every
+FSM (a state is entered at the clock edge after a cycle in which an `m.next` statement was active; the
+last active one wins).
 """
 
 from __future__ import annotations
@@ -26,14 +33,38 @@ from amaranth import C, Elaboratable, Signal
 # generation
 
 
-def _gen_block(rng, sites, depth, prog, max_depth):
+def _gen_cond(rng, prog):
+    return [rng.randrange(prog["nconds"]), int(rng.random() < 0.3)]
+
+
+def _gen_block(rng, sites, depth, prog, max_depth, ext=False):
     nodes = []
     sites = list(sites)
     while sites:
         k = rng.randint(1, len(sites))
         group, sites = sites[:k], sites[k:]
         if depth < max_depth and rng.random() < (0.65 if depth == 0 else 0.45):
-            if rng.random() < 0.6 or not prog["sels"]:
+            kind = None
+            if ext:  # the extra draw happens only for extended programs: old programs are generated as before
+                r = rng.random()
+                kind = "avif" if r < 0.15 else "fsm" if r < 0.4 else None
+            if kind == "avif":
+                nodes.append({"t": "avif", "c": _gen_cond(rng, prog),
+                              "body": _gen_block(rng, group, depth + 1, prog, max_depth, ext)})
+            elif kind == "fsm":
+                nst = rng.randint(1, 3)
+                parts = [[] for _ in range(nst)]
+                for s in group:
+                    parts[rng.randrange(nst)].append(s)
+                f = prog["nfsm"] = prog.get("nfsm", 0) + 1
+                states = []
+                for part in parts:
+                    go = []
+                    for _ in range(rng.choice([0, 1, 1, 2, 2])):
+                        go.append([None if rng.random() < 0.25 else _gen_cond(rng, prog), rng.randrange(nst)])
+                    states.append({"body": _gen_block(rng, part, depth + 1, prog, max_depth, ext), "go": go})
+                nodes.append({"t": "fsm", "f": f - 1, "init": rng.choice([None, rng.randrange(nst)]), "states": states})
+            elif rng.random() < 0.6 or not prog["sels"]:
                 nbr = rng.randint(1, 3)
                 parts = [[] for _ in range(nbr)]
                 for s in group:
@@ -44,7 +75,7 @@ def _gen_block(rng, sites, depth, prog, max_depth):
                         cond = None
                     else:
                         cond = [rng.randrange(prog["nconds"]), int(rng.random() < 0.3)]
-                    br.append({"c": cond, "body": _gen_block(rng, part, depth + 1, prog, max_depth)})
+                    br.append({"c": cond, "body": _gen_block(rng, part, depth + 1, prog, max_depth, ext)})
                 nodes.append({"t": "if", "br": br})
             else:
                 sel = rng.randrange(len(prog["sels"]))
@@ -64,15 +95,16 @@ def _gen_block(rng, sites, depth, prog, max_depth):
                                 pats.append("".join(rng.choice("01-") for _ in range(w)))
                             else:
                                 pats.append(rng.randrange(1 << w))
-                    cases.append({"p": pats, "body": _gen_block(rng, part, depth + 1, prog, max_depth)})
+                    cases.append({"p": pats, "body": _gen_block(rng, part, depth + 1, prog, max_depth, ext)})
                 nodes.append({"t": "switch", "sel": sel, "cases": cases})
         else:
             nodes += [{"t": "site", "id": s} for s in group]
     return nodes
 
 
-def gen_prog(rng, nsites, max_depth=3):
-    """Returns (prog, where) -- where[site] = ("top", None) | ("trans", i) | ("meth", j)."""
+def gen_prog(rng, nsites, max_depth=3, ext=False):
+    """Returns (prog, where) -- where[site] = ("top", None) | ("trans", i) | ("meth", j).
+    ext: also place sites under m.AvoidedIf and in m.FSM / m.State (evaluate those programs with CtxEval)."""
     ntrans = rng.choice([0, 1, 1, 2, 2, 3]) if rng.random() < 0.25 else rng.choice([1, 2, 2, 3])
     nmeth = rng.choice([0, 1, 1, 2]) if ntrans else 0
     nmods = rng.choice([1, 1, 2])
@@ -98,7 +130,7 @@ def gen_prog(rng, nsites, max_depth=3):
     for c in containers:
         mine = [s for s in range(nsites) if where[s] == c]
         rng.shuffle(mine)
-        body = _gen_block(rng, mine, 0, prog, max_depth)
+        body = _gen_block(rng, mine, 0, prog, max_depth, ext)
         mod = prog["mods"][rng.randrange(nmods)]
         if c[0] == "top":
             mod.extend(body)
@@ -194,6 +226,21 @@ class CtxDesign:
                     for cs in n["cases"]:
                         with (m.Default() if cs["p"] is None else m.Case(*cs["p"])):
                             self._nodes(m, cs["body"], env)
+            elif t == "avif":
+                with m.AvoidedIf(self._cond(n["c"])):
+                    self._nodes(m, n["body"], env)
+            elif t == "fsm":
+                kw = {} if n["init"] is None else {"init": f"S{n['init']}"}
+                with m.FSM(name=f"fsm{n['f']}", **kw):
+                    for si, st in enumerate(n["states"]):
+                        with m.State(f"S{si}"):
+                            self._nodes(m, st["body"], env)
+                            for c, tgt in st["go"]:
+                                if c is None:
+                                    m.next = f"S{tgt}"
+                                else:
+                                    with m.If(self._cond(c)):
+                                        m.next = f"S{tgt}"
             elif t == "trans":
                 i = n["i"]
                 with Transaction(name=f"t{i}").body(m, ready=self.sig[f"t{i}.req"]) as tr:
@@ -226,25 +273,32 @@ def _match(v, w, pat):
     return v == pat
 
 
-def eval_sites(prog, stim, obs):
-    """site id -> {"body": body runs (or no body), "cond": enclosing branches selected, "meth": j | None}."""
+def eval_sites(prog, stim, obs, fsm_state=None, fsm_next=None):
+    """site id -> {"body": body runs (or no body), "cond": enclosing branches selected, "meth": j | None,
+    "fsm": None (not in an FSM state) | all enclosing states are the current ones,
+    "av": None (not under m.AvoidedIf) | all enclosing AvoidedIf conditions hold}.
+    fsm_state: {f: current state index} (needed iff the program has FSMs); fsm_next (a dict) receives the
+    states entered at the coming clock edge."""
     out = {}
 
-    def walk(nodes, body, cond, meth):
+    def cval(c):
+        return bool(stim.get(f"c{c[0]}", 0)) != bool(c[1])
+
+    def walk(nodes, body, cond, meth, fsm, av):
         for n in nodes:
             t = n["t"]
             if t == "site":
-                out[n["id"]] = {"body": body, "cond": cond, "meth": meth}
+                out[n["id"]] = {"body": body, "cond": cond, "meth": meth, "fsm": fsm, "av": av}
             elif t == "if":
                 prev = False
                 for br in n["br"]:
                     if br["c"] is None:
                         here = not prev
                     else:
-                        val = bool(stim.get(f"c{br['c'][0]}", 0)) != bool(br["c"][1])
+                        val = cval(br["c"])
                         here = val and not prev
                         prev = prev or val
-                    walk(br["body"], body, cond and here, meth)
+                    walk(br["body"], body, cond and here, meth, fsm, av)
             elif t == "switch":
                 v = stim.get(f"sel{n['sel']}", 0)
                 w = prog["sels"][n["sel"]]
@@ -252,15 +306,61 @@ def eval_sites(prog, stim, obs):
                 for cs in n["cases"]:
                     hit = (not matched) and (cs["p"] is None or any(_match(v, w, p) for p in cs["p"]))
                     matched = matched or hit
-                    walk(cs["body"], body, cond and hit, meth)
+                    walk(cs["body"], body, cond and hit, meth, fsm, av)
+            elif t == "avif":
+                on = cval(n["c"])
+                walk(n["body"], body, cond and on, meth, fsm, on if av is None else (av and on))
+            elif t == "fsm":
+                cur = fsm_state[n["f"]]
+                for si, st in enumerate(n["states"]):
+                    here = si == cur
+                    walk(st["body"], body, cond and here, meth, here if fsm is None else (fsm and here), av)
+                    if body and cond and here and fsm_next is not None:
+                        for c, tgt in st["go"]:
+                            if c is None or cval(c):
+                                fsm_next[n["f"]] = tgt
             elif t == "trans":
-                walk(n["body"], bool(obs[f"t{n['i']}.run"]), cond, meth)
+                walk(n["body"], bool(obs[f"t{n['i']}.run"]), cond, meth, fsm, av)
             elif t == "meth":
-                walk(n["body"], bool(obs[f"m{n['j']}.run"]), cond, n["j"])
+                walk(n["body"], bool(obs[f"m{n['j']}.run"]), cond, n["j"], fsm, av)
 
     for mod in prog["mods"]:
-        walk(mod, True, True, None)
+        walk(mod, True, True, None, None, None)
     return out
+
+
+class CtxEval:
+    """eval_sites for programs with FSMs: keeps the state registers between the cycles.  step() must be
+    called exactly once per simulated cycle, in order, from cycle 0 (reset: every FSM in its init state)."""
+
+    def __init__(self, prog):
+        self.prog = prog
+        self.state: dict = {}
+
+        def scan(nodes):
+            for n in nodes:
+                t = n["t"]
+                if t == "fsm":
+                    self.state[n["f"]] = n["init"] or 0
+                    for st in n["states"]:
+                        scan(st["body"])
+                elif t == "if":
+                    for br in n["br"]:
+                        scan(br["body"])
+                elif t == "switch":
+                    for cs in n["cases"]:
+                        scan(cs["body"])
+                elif t in ("avif", "trans", "meth"):
+                    scan(n["body"])
+
+        for mod in prog["mods"]:
+            scan(mod)
+
+    def step(self, stim, obs):
+        nxt: dict = {}
+        out = eval_sites(self.prog, stim, obs, self.state, nxt)
+        self.state.update(nxt)
+        return out
 
 
 def callers_of(prog, j):
